@@ -3,6 +3,7 @@
   predicate the theorems are about (`Valid`); and the comparison used by the op files (`Key.cmp`) is lawful.
 -/
 import CelloProofs.Lemmas.RBStore
+import CelloProofs.Lemmas.RBArgs
 
 namespace Cello.RB
 open Std
@@ -136,10 +137,7 @@ instance : LawfulPacked Key where
     | s x => rfl
     | w a b r => simp [Packed.words, Packed.ofWords, intsOf_map]
 
-instance : LawfulPacked Val where
-  ofWords_words := by
-    intro x
-    exact intsOf_map x
+/-! values of the op files are of the same kinds as the keys (`Val = Key`): the instance above serves both -/
 
 /-! ### well-typedness of a concrete history can be computed -/
 
@@ -165,5 +163,48 @@ theorem wellTypedB_sound (env : Store (Nat × Nat)) (ops : List (Op Key Val)) (h
       have h1 := h.1
       simp only [hz] at h1
       exact (sizedB_iff _ _).mp h1 _ (by simp)
+
+/-- executable form of `WellTypedA` -/
+def wellTypedAB : Store (Nat × Nat) → List (AOp Key Val) → Bool
+  | _, [] => true
+  | env, op :: ops =>
+    (match op with
+     | .base (.new _ ks vs init) => sizedB (ks, vs) init
+     | .base (.set t k v) => match env.get? t with | none => true | some z => sizedB z [(k, v)]
+     | .setA t ka va =>
+       (match env.get? t with
+        | none => true
+        | some z =>
+          (match ka with | .val k => 8 * (Packed.words k).length == z.1 | .own _ => true) &&
+          (match va with | .val v => 8 * (Packed.words v).length == z.2 | .own _ => true))
+     | .assignMap _ ks vs kvs => sizedB (ks, vs) kvs
+     | _ => true) && wellTypedAB (tyStepA env op) ops
+
+theorem wellTypedAB_sound (env : Store (Nat × Nat)) (ops : List (AOp Key Val)) (h : wellTypedAB env ops = true) :
+    WellTypedA env ops := by
+  induction ops generalizing env with
+  | nil => trivial
+  | cons op ops ih =>
+    simp only [wellTypedAB, Bool.and_eq_true] at h
+    refine ⟨?_, ih _ h.2⟩
+    have h1 := h.1
+    cases op with
+    | base op =>
+      cases op <;> simp only [AOp.typed, Op.typed] <;> try trivial
+      · exact (sizedB_iff _ _).mp h1
+      · intro z hz
+        simp only [hz] at h1
+        exact (sizedB_iff _ _).mp h1 _ (by simp)
+    | setA t ka va =>
+      intro z hz
+      simp only [hz, Bool.and_eq_true] at h1
+      constructor
+      · intro k hk; subst hk; simpa using h1.1
+      · intro v hv; subst hv; simpa using h1.2
+    | assignMap t ks vs kvs => exact (sizedB_iff _ _).mp h1
+    | getK => trivial
+    | memK => trivial
+    | remK => trivial
+    | newOdd => trivial
 
 end Cello.RB
